@@ -331,7 +331,9 @@ impl CoreInner {
 		// Step 4: Apply changeset atomically
 		// Lock order: level_manifest → immutable_memtables
 		let mut manifest = self.level_manifest.write()?;
+		verif_yield!("lk.flush.manifest");
 		let mut memtable_lock = self.immutable_memtables.write()?;
+		verif_yield!("lk.flush.immutable");
 
 		let rollback = manifest.apply_changeset(&changeset)?;
 		if let Err(e) = write_manifest_to_disk(&manifest) {
@@ -379,6 +381,7 @@ impl CoreInner {
 	pub(crate) fn rotate_memtable(&self) -> Result<()> {
 		// Step 1: Acquire WRITE lock upfront to prevent race conditions
 		let mut active_memtable = self.active_memtable.write()?;
+		verif_yield!("lk.rotate.active");
 
 		if active_memtable.is_empty() {
 			return Ok(());
@@ -424,6 +427,7 @@ impl CoreInner {
 		// By acquiring manifest.read first, we ensure no circular wait.
 		let table_id = self.level_manifest.read()?.next_table_id();
 		let mut immutable_memtables = self.immutable_memtables.write()?;
+		verif_yield!("lk.rotate.immutable");
 		immutable_memtables.add(table_id, flushed_wal_number, Arc::clone(&flushed_memtable));
 
 		// Release locks
